@@ -25,6 +25,7 @@ func (c CallRef) Full() string {
 
 type Method struct {
 	Pkg, Class, Name string
+	IsCtor           bool // a constructor: Name == Class, recorded with IsConstructor
 	Calls            []CallRef
 }
 
@@ -84,6 +85,8 @@ type Opts struct {
 	DefaultPkg                     bool // some classes live in the default package (empty package name)
 	Kinds                          bool // classes are Class / Interface / unrecorded (otherwise all "Class")
 	CaseTwins                      bool // an uncalled method whose name differs only in case from a called one
+	Ctors                          bool // some classes declare a constructor (a function named like the class) that makes calls
+	PlatformLikePkgs               bool // package names that merely start like platform packages (sunrise.billing, javalin.web, ...)
 	Inheritance                    bool // classes extend one another (chains of 2-4) and inherited methods are called through a subclass receiver
 	OddRunes                       bool // names may contain identifier-ignorable format characters (U+200C, U+00AD) and non-ASCII letters
 }
@@ -101,6 +104,9 @@ func Generate(r *run.Rand, o Opts) *Model {
 		var pk, cn string
 		for {
 			pk = r.Pick(pkgs)
+			if o.PlatformLikePkgs && r.Chance(1, 5) {
+				pk = r.Pick([]string{"sunrise.billing", "javalin.web", "jdkless.core", "com.sunlife.policy", "javax0.tools", "sun"})
+			}
 			if o.DefaultPkg && r.Chance(1, 6) {
 				pk = ""
 			}
@@ -141,7 +147,13 @@ func Generate(r *run.Rand, o Opts) *Model {
 			// legal in Java identifiers: zero-width non-joiner (Persian), soft hyphen, ordinary non-ASCII letters
 			name = name + r.Pick([]string{"\u200c", "\u00ad", "\u200d", "é", "名"}) + r.Pick(mWords)
 		}
-		if o.Overloads && len(c.Methods) > 0 && r.Chance(1, 6) {
+		isCtor := false
+		if o.Ctors && r.Chance(1, 8) && !usedM[c.Pkg+"."+c.Name+"."+c.Name] {
+			name, isCtor = c.Name, true
+		}
+		if isCtor {
+			// nothing: the name is the class name
+		} else if o.Overloads && len(c.Methods) > 0 && r.Chance(1, 6) {
 			name = c.Methods[r.Intn(len(c.Methods))].Name // an overload: same full name, its own call list
 		} else {
 			for usedM[c.Pkg+"."+c.Name+"."+name] {
@@ -149,7 +161,7 @@ func Generate(r *run.Rand, o Opts) *Model {
 			}
 		}
 		usedM[c.Pkg+"."+c.Name+"."+name] = true
-		me := &Method{Pkg: c.Pkg, Class: c.Name, Name: name}
+		me := &Method{Pkg: c.Pkg, Class: c.Name, Name: name, IsCtor: isCtor}
 		c.Methods = append(c.Methods, me)
 		all = append(all, me)
 	}
